@@ -206,6 +206,10 @@ func (c02) Exec(seed int64, i int, tier string) Record {
 	if i >= len(enum) && (i-len(enum))%1500 == 333 {
 		return c02HugeCase(r) // class huge (b12_helpers.go)
 	}
+	if i >= len(enum) && (i-len(enum))%25 == 19 {
+		// class history-fault-probe (b16_probes.go): Retrieve with a user function that panics / errs at exactly its K-th call
+		return b16C02(r, i)
+	}
 	var s, gen, wantRegex string
 	if i < len(enum) {
 		s, gen = enum[i], c02SectionOf(i)
